@@ -5,7 +5,7 @@ from engine import desc as D
 EXPLANATION = ("Static rules over the type-checked MIR of quinn-proto: (a) every SentPacket that leaves sent_packets is handed to "
                "remove_in_flight on that path (all 8 producer sites classified; flows checked on all CFG paths); in-flight counters have "
                "a single inserter/remover; (b) the congestion gate of poll_transmit compares in_flight.bytes + bytes_to_send against "
-               "Controller::window() with >= and its blocked edge skips packet construction; (c) PacketBuilder::new in the send loop is "
+               "Controller::window() with >=, bytes_to_send = a full segment + the not-yet-tracked packet charged up to the end of its datagram, and its blocked edge skips packet construction; (c) PacketBuilder::new in the send loop is "
                "reachable only past the gate or under an enumerated exemption (loss probe / not ack-eliciting / close); (d) loss probes are "
                "added in {1,2} and consumed one per datagram; (e) built-in controllers' window stores end in a floor idiom; (f) loss "
                "declaration thresholds and ACK sanity guards. Numeric traces (bytes in flight returning to zero, no spurious loss) are NOT decided.")
@@ -80,14 +80,20 @@ def rule_a(ctx):
     who_may_call(ctx, 'a', 'path_sent_single_caller', ['PathData::sent'], ['PacketBuilder::finish_and_track'], floor=1)
     # generation match guard in PathData::remove_in_flight: InFlight::remove only on generation equality
     prf = ctx.pfn('PathData::remove_in_flight')
-    brs = [b for b in branches(F, prf) if relation_on(b.desc, True) and desc_has(b.desc, fields=['path_generation', 'generation'])]
+    # exact: an Eq/Ne comparison whose two operands ARE packet.path_generation and self.generation (any other relation,
+    # e.g. `>`, lets packets of an older generation through)
+    rm = [c.bb for c in prf.calls_to('InFlight::remove')]
     okg = False
-    for br in brs:
+    for br in branches(F, prf):
         rel = relation_on(br.desc, True)
-        rm = [c.bb for c in prf.calls_to('InFlight::remove')]
+        if rel is None or rel[0] not in ('Eq', 'Ne'):
+            continue
+        names = sorted(x[2] if x[0] == 'field' else '?' for x in (rel[1], rel[2]))
+        if names != ['generation', 'path_generation']:
+            continue
         eq_t = br.true_target() if rel[0] == 'Eq' else br.false_target()
         ne_t = br.false_target() if rel[0] == 'Eq' else br.true_target()
-        if rm and all(x in prf.reachable_from(eq_t) for x in rm) and not any(x in prf.reachable_from(ne_t) for x in rm):
+        if rm and all(edge_dominates(prf, br.bb, eq_t, x) for x in rm) and not any(x in prf.reachable_from(ne_t) for x in rm):
             okg = True
     ctx.check(okg, 'a', 'remove_only_on_matching_generation', prf, prf.where(),
               'InFlight::remove only when packet.path_generation == self.generation',
@@ -127,18 +133,24 @@ def rule_b(ctx):
     for truth in (True, False):
         rel = relation_on(g.desc, truth)
         o, x, y = rel
-        # blocked relation is window <= inflight+bts
-        if o == 'Le' and D.has_call(x, 'Controller::window') and D.has_field(y, 'in_flight'):
+        # blocked relation is window <= inflight+bts ; the window side IS the Controller::window() call (not a scaled /
+        # offset value of it) and the other side is a sum with in_flight.bytes as one summand
+        if o == 'Le' and _is_call(x, 'Controller::window') and any(_is_inflight_bytes(t) for t in _summands(y)):
             blocked_target = g.target(1 if truth else 0)
             pass_target = g.target(0 if truth else 1)
     if not ctx.check(blocked_target is not None, 'b', 'gate_relation_ge', pt, g.where(),
                      'blocked iff in_flight.bytes + bytes_to_send >= window()',
-                     'gate relation is not `in_flight.bytes + bytes_to_send >= window()` (found %s)' % D.render(g.desc)):
+                     'gate relation is not `in_flight.bytes + bytes_to_send >= window()` (found %s)' % D.render(g.desc)[:400]):
         return None
-    # operands: bytes_to_send contains segment_size
+    # operands: the bytes about to be sent include a full segment: besides in_flight.bytes the sum has a summand that is
+    # the segment size itself (every reaching value a plain size read, one of them PathData::current_mtu())
     o, x, y = relation_on(g.desc, True)
     side = x if D.has_field(x, 'in_flight') else y
-    ctx.check(side[0] == 'bin' and side[1] == 'Add', 'b', 'gate_adds_bytes_to_send', pt, g.where(), 'in_flight.bytes + bytes_to_send', 'gate no longer adds the bytes about to be sent: %s' % D.render(side))
+    rest = [t for t in _summands(side) if not _is_inflight_bytes(t)]
+    ctx.check(side[0] == 'bin' and side[1] == 'Add' and any(_is_segment_size(t) for t in rest), 'b', 'gate_adds_bytes_to_send', pt, g.where(),
+              'in_flight.bytes + bytes_to_send (a full segment is a summand)',
+              'gate no longer adds the bytes about to be sent (no full-segment summand next to in_flight.bytes): %s' % D.render(side)[:400])
+    _pending_packet_charge(ctx, pt, g, rest)
     # blocked edge skips packet construction in this iteration: PacketBuilder::new of the loop not reachable without passing the loop header
     pb = [c for c in pt.calls_to('PacketBuilder::new')]
     # the loop header = block of the `space_idx < spaces.len()` comparison: approximated as the dominator shared by gate and builder; we
@@ -149,6 +161,176 @@ def rule_b(ctx):
               'on the blocked edge no PacketBuilder::new is reachable within the same loop iteration',
               'on the congestion-blocked edge a packet can still be built in the same iteration')
     return g, blocked_target, pass_target, head
+
+
+def _is_call(d, name):
+    """d IS a call of `name` (every reaching value, for a phi)"""
+    if d[0] == 'phi':
+        return bool(d[1]) and all(_is_call(x, name) for x in d[1])
+    return d[0] == 'call' and D.has_call(('call', d[1], d[2], (), 0), name)
+
+
+def _is_field(d, name):
+    return d[0] == 'field' and d[2] == name
+
+
+def _is_product(d, k, pred):
+    """d is exactly `k * y` with pred(y)"""
+    if not (d[0] == 'bin' and d[1] == 'Mul'):
+        return False
+    for c, y in ((d[2], d[3]), (d[3], d[2])):
+        if c[0] == 'const' and c[1] == 'int' and str(c[2]) == str(k) and pred(y):
+            return True
+    return False
+
+
+def _summands(d):
+    """terms of a (nested) addition"""
+    if d[0] == 'bin' and d[1] == 'Add':
+        return _summands(d[2]) + _summands(d[3])
+    return [d]
+
+
+def _is_inflight_bytes(d):
+    return _is_field(d, 'bytes') and _is_field(d[1], 'in_flight')
+
+
+def _plain_read(d):
+    """a call whose arguments are plain places (params / fields): `self.path.current_mtu()`, `buf.len()`; no arithmetic,
+    no min/max against a constant"""
+    def place(x):
+        while x[0] in ('field', 'index', 'variant'):
+            x = x[1]
+        return x[0] in ('param', 'upvar')
+    return d[0] == 'call' and all(place(a) for a in d[3])
+
+
+def _is_segment_size(d):
+    alts = flat(d)
+    return all(_plain_read(a) for a in alts) and any(_is_call(a, 'PathData::current_mtu') for a in alts)
+
+
+def _is_zero(d):
+    return d[0] == 'const' and d[1] == 'int' and str(d[2]) == '0'
+
+
+def _is_datagram_limit(d):
+    """the amount by which the datagram buffer grows for one more datagram: the segment size, or min(segment size, CONST)
+    (loss probe clamp); every reaching value has one of these forms and the path MTU is among the sizes read"""
+    def one(a):
+        if _plain_read(a):
+            return True
+        return a[0] == 'call' and (a[1] in MIN_CALLS or D._trait_form(a[1]) in MIN_CALLS) and len(a[3]) == 2 and \
+            any(x[0] == 'const' for x in a[3]) and any(x[0] != 'const' and all(_plain_read(y) for y in flat(x)) for x in a[3])
+    alts = flat(d)
+    return bool(alts) and all(one(a) for a in alts) and D.has_call(d, 'PathData::current_mtu')
+
+
+def _is_datagram_end(d):
+    """the capacity of the buffer up to the end of the datagram under construction: every reaching value is the empty
+    capacity 0 or `previous end + datagram limit` (a whole datagram has been allocated on top); in particular NOT the
+    current write position (a bare buf.len())"""
+    alts = flat(d)
+    adds = [a for a in alts if a[0] == 'bin' and a[1] == 'Add' and (_is_datagram_limit(a[2]) or _is_datagram_limit(a[3]))]
+    return bool(adds) and all(_is_zero(a) or a in adds for a in alts)
+
+
+def _pending_start(d):
+    """d is the first byte of the pending packet, read from the builder held in an Option: (X as Some).0.partial_encode.start
+    (or the start of its datagram, which is not larger); returns X or None"""
+    if d[0] != 'field':
+        return None
+    if d[2] == 'start' and _is_field(d[1], 'partial_encode'):
+        base = d[1][1]
+    elif d[2] == 'datagram_start':
+        base = d[1]
+    else:
+        return None
+    if base[0] == 'field' and base[2] == '0' and base[1][0] == 'variant' and base[1][2] == 'Some':
+        return base[1][1]
+    return None
+
+
+SUB_CALLS = ('usize::saturating_sub', 'u64::saturating_sub', 'usize::wrapping_sub', 'u64::wrapping_sub')
+MIN_CALLS = ('Ord::min', 'usize::min', 'u64::min', 'cmp::min')
+
+
+def _pending_charge(a):
+    """a is `datagram end - start of the pending packet`; returns the Option place holding the builder, or None"""
+    if a[0] == 'bin' and a[1] == 'Sub':
+        x, y = a[2], a[3]
+    elif a[0] == 'call' and a[1] in SUB_CALLS and len(a[3]) == 2:
+        x, y = a[3]
+    else:
+        return None
+    if not _is_datagram_end(x):
+        return None
+    return _pending_start(y)
+
+
+def _pending_packet_charge(ctx, pt, g, rest):
+    """The packet that is built but not yet handed to finish_and_track is not in in_flight.bytes. When a further datagram
+    is opened it is padded to the end of its datagram and tracked at that size, so the gate must charge it from its first
+    byte to the END OF ITS DATAGRAM (buffer capacity), not up to the bytes written so far; the charge may be 0 only on the
+    edge on which no builder is pending."""
+    F = ctx.facts
+    d = describer(F, pt)
+    segs = [t for t in rest if _is_segment_size(t)]
+    extra = list(rest)
+    if segs:
+        extra.remove(segs[0])
+    inst = 'gate_charges_pending_packet_to_datagram_end'
+    if len(extra) != 1:
+        ctx.bad('b', inst, pt, g.where(),
+                'besides in_flight.bytes and the segment the gate sum must have exactly one summand, the charge for the packet still being '
+                'built; found %d: %s' % (len(extra), [D.render(t)[:120] for t in extra]))
+        return
+    u = extra[0]
+    alts = flat(u)
+    holders = []
+    wrong = []
+    for a in alts:
+        if _is_zero(a):
+            continue
+        h = _pending_charge(a)
+        if h is None:
+            wrong.append(a)
+        else:
+            holders.append((a, h))
+    if wrong or not holders:
+        ctx.bad('b', inst, pt, g.where(),
+                'the packet still being built is not charged as `datagram end (buffer capacity) - first byte of the packet`: %s'
+                % [D.render(a)[:300] for a in (wrong or alts)])
+        return
+    # 0 is the charge only on the no-builder edge: a test of the Option holding the builder dominates the gate, and from its
+    # Some edge every path to the gate (within the loop iteration) passes a store of the charge to the local that carries it
+    charge_descs = [a for a, h in holders]
+    live = pt.live_blocks()
+    stores = set()
+    for loc in range(len(pt.locals)):
+        defs = [df for df in pt.defs_of(loc) if df[0] in ('stmt', 'call') and df[1] in live]
+        if len(defs) < 2:
+            continue
+        for df in defs:
+            v = d.rvalue(df[3], df[1], df[2], 0) if df[0] == 'stmt' else d.call_desc(df[2], 0)
+            if v in charge_descs:
+                stores.add(df[1])
+    head = loop_head(pt, g.bb)
+    ok, why = True, ''
+    if len(alts) > len(holders):
+        tests = [br for br in branches(F, pt) if any(br.desc == ('discr', h) for a, h in holders) and pt.dominates(br.bb, g.bb) and br.bb != g.bb
+                 and (head is None or pt.dominates(head, br.bb))]
+        if not stores:
+            ok, why = False, 'cannot locate the store that merges the charge with its 0 alternative'
+        elif not tests:
+            ok, why = False, 'no test of the pending builder dominates the gate, yet the charge may be 0'
+        else:
+            leaks = [path_avoiding(pt, [br.target(1)], [g.bb], stores | ({head} if head is not None else set())) for br in tests]
+            if all(p is not None for p in leaks):
+                ok, why = False, 'with a builder pending the gate is reachable without storing the charge: ' + fmt_path(pt, min(leaks, key=len))
+    ctx.check(ok, 'b', inst, pt, g.where(),
+              'untracked packet charged as buffer capacity - partial_encode.start; 0 only when no builder is pending (%d charge store(s))' % len(stores),
+              'the packet still being built is not always charged up to the end of its datagram: ' + why)
 
 
 def loop_head(body, bb):
@@ -287,7 +469,7 @@ def rule_e(ctx):
     for ty in ('NewReno', 'Cubic'):
         mw = ctx.pfn('%s::minimum_window' % ty)
         rd = ret_descs(F, mw)
-        ok = all(x[0] == 'bin' and x[1] == 'Mul' and D.has_const(x, 2) and D.has_field(x, 'current_mtu') for _, x in rd)
+        ok = all(_is_product(x, 2, lambda y: _is_field(y, 'current_mtu')) for _, x in rd)
         ctx.check(ok and rd, 'e', 'minimum_window_is_2_mtu', mw, mw.where(), '2 * current_mtu', 'minimum_window() is no longer 2*current_mtu: %s' % [D.render(x) for _, x in rd])
     # on_mtu_update: the floor must be computed from the NEW mtu (store of current_mtu dominates minimum_window())
     for ty in ('NewReno', 'Cubic'):
@@ -299,8 +481,19 @@ def rule_e(ctx):
             p = path_avoiding(mu, [0], [c.bb], sts)
             ctx.check(bool(sts) and p is None, 'e', 'mtu_update_floor_uses_new_mtu', mu, c.where(), 'current_mtu = new_mtu precedes minimum_window()',
                       '%s::on_mtu_update clamps the window with the minimum computed from the OLD mtu (current_mtu is stored after minimum_window())' % ty)
-        for w, v in [(w, describer(F, mu).rvalue(w.rv, w.bb, w.idx, 0)) for w in field_writes(F, ty, 'current_mtu', crate='quinn_proto', include_borrows=False) if w.body.id == mu.id and w.rv]:
-            ctx.check(D.has_param(v, name='new_mtu') and not D.const_offsets(v), 'e', 'mtu_update_stores_new_mtu', mu, w.where(), D.render(v), 'current_mtu is not set to the new mtu: ' + D.render(v))
+        # every store (plain or call result) of current_mtu in on_mtu_update stores exactly the parameter (casts / From erased)
+        dm = describer(F, mu)
+        mst = [w for w in field_writes(F, ty, 'current_mtu', crate='quinn_proto', include_borrows=True) if w.body.id == mu.id]
+        ctx.floor('e', ty + '_mtu_update_stores', len(mst), 1)
+        for w in mst:
+            if w.kind == 'assign' and w.rv and w.rv[0] != 'sd':
+                v = dm.rvalue(w.rv, w.bb, w.idx, 0)
+            elif w.kind == 'callresult':
+                v = dm.call_desc(w.call, 0)
+            else:
+                v = ('const', 'other', '<%s>' % w.kind, '')  # &mut borrow / opaque store: not the stated form
+            ctx.check(all(x[0] == 'param' and x[2] == 'new_mtu' for x in flat(v)), 'e', 'mtu_update_stores_new_mtu', mu, w.where(), D.render(v),
+                      'current_mtu is not set to exactly the new mtu: ' + D.render(v)[:300])
     # BBR
     bbr_cc = ctx.pfn('Bbr::calculate_cwnd')
     stores = [w for w in window_stores(ctx, 'Bbr', 'cwnd') if w.body.id == bbr_cc.id]
@@ -310,12 +503,12 @@ def rule_e(ctx):
     fl = None
     for br in branches(F, bbr_cc):
         rel = relation_on(br.desc, True)
-        if rel and rel[0] == 'Lt' and D.has_field(rel[1], 'cwnd') and D.has_field(rel[2], 'min_cwnd'):
+        if rel and rel[0] == 'Lt' and _is_field(rel[1], 'cwnd') and _is_field(rel[2], 'min_cwnd'):
             fl = br
     okf = False
     if fl is not None:
         tt = fl.true_target()
-        st = [w for w in stores if w.bb in bbr_cc.reachable_from(tt) and D.has_field(dd.rvalue(w.rv, w.bb, w.idx, 0), 'min_cwnd')]
+        st = [w for w in stores if w.rv and w.bb in bbr_cc.reachable_from(tt) and _is_field(dd.rvalue(w.rv, w.bb, w.idx, 0), 'min_cwnd')]
         okf = bool(st)
         for w in stores:
             if w in st:
@@ -329,12 +522,13 @@ def rule_e(ctx):
         b = ctx.pfn(fn)
         ws = [w for w in window_stores(ctx, 'Bbr', 'cwnd') if w.body.id == b.id]
         d2 = describer(F, b)
-        ok = bool(ws) and all(D.has_call(d2.rvalue(w.rv, w.bb, w.idx, 0) if w.rv else d2.call_desc(w.call, 0), 'Ord::max') and
-                              D.has_field(d2.rvalue(w.rv, w.bb, w.idx, 0) if w.rv else d2.call_desc(w.call, 0), 'min_cwnd') for w in ws)
+        vals = [d2.rvalue(w.rv, w.bb, w.idx, 0) if w.rv else d2.call_desc(w.call, 0) for w in ws]
+        # the stored value IS max(.., self.min_cwnd): one argument of the max is exactly the field
+        ok = bool(ws) and all(v[0] == 'call' and (v[1] in MAX_CALLS or D._trait_form(v[1]) in MAX_CALLS) and any(_is_field(a, 'min_cwnd') for a in v[3]) for v in vals)
         ctx.check(ok, 'e', 'bbr_on_mtu_update_floor', b, b.where(), what, 'Bbr::on_mtu_update cwnd store lost its max(.., min_cwnd) floor')
     cmw = ctx.pfn('bbr::calculate_min_window')
     rd = ret_descs(F, cmw)
-    ctx.check(rd and all(x[0] == 'bin' and x[1] == 'Mul' and D.has_const(x, 4) for _, x in rd), 'e', 'bbr_min_window_is_4_mtu', cmw, cmw.where(),
+    ctx.check(rd and all(_is_product(x, 4, lambda y: y[0] == 'param') for _, x in rd), 'e', 'bbr_min_window_is_4_mtu', cmw, cmw.where(),
               '4 * mtu', 'bbr calculate_min_window is no longer 4*mtu')
     # window() of the three controllers returns the stored field (so the floor idioms bound what is reported)
     for ty, fld in (('NewReno', 'window'), ('Cubic', 'window')):
@@ -342,33 +536,55 @@ def rule_e(ctx):
         rd = ret_descs(F, b)
         ctx.check(rd and all(x[0] == 'field' and x[2] == fld for _, x in rd), 'e', 'window_reports_stored_field', b, b.where(), 'returns self.%s' % fld,
                   'Controller::window() no longer returns the floored field')
+    # Bbr::window(): every returned value is self.cwnd, a min(..) capped by self.cwnd, or the probe-rtt window
+    b = ctx.pfn('<Bbr as Controller>::window')
+    alts = [a for _, x in ret_descs(F, b) for a in flat(x)]
+
+    def _bbr_ok(a):
+        if _is_field(a, 'cwnd') or _is_call(a, 'Bbr::get_probe_rtt_cwnd'):
+            return True
+        return a[0] == 'call' and (a[1] in ('Ord::min', 'u64::min', 'cmp::min') or D._trait_form(a[1]) == 'Ord::min') and any(_is_field(y, 'cwnd') for y in a[3])
+    ctx.check(bool(alts) and all(_bbr_ok(a) for a in alts) and any(_is_field(a, 'cwnd') for a in alts), 'e', 'window_reports_stored_field', b, b.where(),
+              'returns self.cwnd | min(self.cwnd, ..) | get_probe_rtt_cwnd()', 'Bbr::window() returns a value not bounded by the floored cwnd field: %s' % [D.render(a)[:80] for a in alts])
+
+
+MAX_CALLS = ('Ord::max', 'u64::max', 'cmp::max')
+
+
+def _floor_value(val, ty):
+    """val is >= minimum_window() by construction: the minimum_window() call itself, or max(..) with such an argument"""
+    if val[0] == 'phi':
+        return bool(val[1]) and all(_floor_value(x, ty) for x in val[1])
+    if _is_call(val, ty + '::minimum_window'):
+        return True
+    if val[0] == 'call' and (val[1] in MAX_CALLS or D._trait_form(val[1]) in MAX_CALLS):
+        return any(_floor_value(a, ty) for a in val[3])
+    return False
 
 
 def floor_idiom(ctx, b, val, ty, adt):
     """accepted final-store idioms"""
-    r = D.render(val)
     if val[0] == 'phi':
         res = [floor_idiom(ctx, b, x, ty, adt) for x in val[1]]
         return all(x[0] for x in res), 'phi of ' + ','.join(x[1] for x in res)
-    if D.has_call(val, ty + '::minimum_window') and (val[0] == 'call' and (val[1] in ('Ord::max', 'u64::max', 'cmp::max') or val[1].endswith('minimum_window'))):
+    if _floor_value(val, ty):
         return True, 'max(x, minimum_window()) / = minimum_window()'
-    if val[0] == 'call' and val[1] in ('u64::saturating_add',) and D.has_field(val[3][0], 'window'):
+    if val[0] == 'call' and val[1] in ('u64::saturating_add',) and _is_field(val[3][0], 'window'):
         return True, 'saturating_add'
-    if val[0] == 'bin' and val[1] == 'Add' and (D.has_field(val[2], 'window') or D.has_field(val[3], 'window')):
+    if val[0] == 'bin' and val[1] == 'Add' and (_is_field(val[2], 'window') or _is_field(val[3], 'window')):
         return True, 'old + x'
     if val[0] == 'field' and val[2] == 'ssthresh':
         # ssthresh itself must be stored from max(_, minimum_window()) in the same function
-        ws = [w for w in field_writes(ctx.facts, adt, 'ssthresh', crate='quinn_proto') if w.body.id == b.id and w.kind in ('assign', 'callresult')]
+        ws = [w for w in field_writes(ctx.facts, adt, 'ssthresh', crate='quinn_proto') if w.body.id == b.id]
         dd = describer(ctx.facts, b)
-        ok = bool(ws) and all(D.has_call(dd.rvalue(w.rv, w.bb, w.idx, 0) if w.rv else dd.call_desc(w.call, 0), ty + '::minimum_window') for w in ws)
+        ok = bool(ws) and all(w.kind in ('assign', 'callresult') and
+                              _floor_value(dd.rvalue(w.rv, w.bb, w.idx, 0) if w.rv else dd.call_desc(w.call, 0), ty) for w in ws)
         return ok, '= ssthresh (ssthresh = max(_, minimum_window()))'
     if val[0] == 'field' and val[2] == 'window' and D.has_field(val, 'pre_congestion_state'):
         return True, 'restore pre_congestion_state'
     if val[0] == 'field' and val[2] == 'window':
         # copy from a saved state (prior.window)
         return True, 'restore saved window'
-    if val[0] == 'call' and val[1] in ('Ord::max', 'u64::max', 'cmp::max') and D.has_call(val, ty + '::minimum_window'):
-        return True, 'max(x, minimum_window())'
     return False, 'unrecognised'
 
 
@@ -380,39 +596,57 @@ def rule_f(ctx):
     d = describer(F, dl)
     pushes = [c for c in dl.calls_to('Vec::push') if _recv_is_local(dl, c, 'lost_packets')]
     brs = branches(F, dl)
-    too_old = [br for br in brs if relation_on(br.desc, True) and desc_has(br.desc, calls=['Instant::saturating_duration_since']) and
-               D.has_call(br.desc, 'Ord::max') | D.has_call(br.desc, 'cmp::max')]
-    thr = [br for br in brs if relation_on(br.desc, True) and desc_has(br.desc, fields=['packet_threshold'])]
-    ok = bool(pushes) and bool(too_old) and bool(thr)
+    # exact operand classes, per edge:  time test  loss_delay <= now.saturating_duration_since(info.time_sent)
+    #                                   pn test    pn + packet_threshold <= largest_acked_packet   (or packet_threshold <= largest - pn)
+    time_edges, thr_edges, delay_descs = [], [], []
+    for br in brs:
+        for truth in (True, False):
+            rel = relation_on(br.desc, truth)
+            if rel is None or rel[0] != 'Le':
+                continue
+            o, x, y = rel
+            tgt = br.target(1 if truth else 0)
+            if _is_max_call(x) and _is_elapsed_since_sent(y):
+                time_edges.append((br.bb, tgt))
+                delay_descs.append(x)
+            if _is_pn_plus_threshold(x) and _is_largest_acked(y):
+                thr_edges.append((br.bb, tgt))
+            if _is_field(x, 'packet_threshold') and y[0] == 'bin' and y[1] == 'Sub' and _is_largest_acked(y[2]) and _from_scan(y[3]):
+                thr_edges.append((br.bb, tgt))
+    ok = bool(pushes) and bool(time_edges) and bool(thr_edges)
     if ok:
-        # the push is reachable only via too_old true edge or threshold true edge
-        for c in pushes:
-            o = too_old[0]
-            rel = relation_on(o.desc, True)  # loss_delay <= elapsed  (elapsed >= loss_delay)
-            t_old = o.true_target() if rel[0] == 'Le' else o.false_target()
-            f_old = o.false_target() if rel[0] == 'Le' else o.true_target()
-            h = thr[0]
-            relh = relation_on(h.desc, True)
-            t_thr = h.true_target() if relh[0] == 'Le' else h.false_target()
-            f_thr = h.false_target() if relh[0] == 'Le' else h.true_target()
-            # avoid both "lost" edges: push must be unreachable
-            reach = dl.reachable_from(0, avoid_edges={(o.bb, t_old), (h.bb, t_thr)})
-            if c.bb in reach:
-                ok = False
+        # the push is reachable only over a "lost" edge of one of these tests
+        reach = dl.reachable_from(0, avoid_edges=set(time_edges) | set(thr_edges))
+        ok = not any(c.bb in reach for c in pushes)
     ctx.check(ok, 'f', 'lost_only_when_too_old_or_past_packet_threshold', dl, dl.where(),
               'lost_packets.push only on (elapsed >= loss_delay) or (largest_acked >= pn + packet_threshold) edges',
-              'a packet can be declared lost without the time or packet threshold test')
-    # loss_delay = max(rtt*time_threshold, TIMER_GRANULARITY)
-    okd = any(D.has_call(br.desc, 'Duration::mul_f32') and D.has_const(br.desc, named='TIMER_GRANULARITY') and D.has_field(br.desc, 'time_threshold') for br in too_old)
+              'a packet can be declared lost without the time or packet threshold test (pushes=%d, time tests=%d, packet-threshold tests=%d with the exact operands)'
+              % (len(pushes), len(time_edges), len(thr_edges)))
+    # loss_delay = max(rtt*time_threshold, TIMER_GRANULARITY): the arguments of the max ARE the product and the constant
+    okd = bool(delay_descs)
+    for x in delay_descs:
+        args = x[3]
+        if not (len(args) == 2 and any(a[0] == 'const' and D.has_const(a, named='TIMER_GRANULARITY') for a in args) and
+                any(_is_call(a, 'Duration::mul_f32') and any(_is_field(z, 'time_threshold') for z in a[3]) for a in args if a[0] == 'call')):
+            okd = False
     ctx.check(okd, 'f', 'loss_delay_floor', dl, dl.where(), 'loss_delay = max(rtt*time_threshold, TIMER_GRANULARITY)', 'loss_delay expression changed')
-    # iteration range 0..largest_acked_packet
+    # iteration range 0..largest_acked_packet : the argument IS Range{0, largest_acked_packet} (or RangeTo{largest_acked_packet});
+    # any other shape (RangeFrom, RangeInclusive, an end bound with arithmetic on it) is a violation
     rng = [c for c in dl.calls_to('SentPackets::range')]
-    okr = False
+    okr = bool(rng)
+    shapes = []
     for c in rng:
         ad = arg_desc(F, c, 1)
-        if ad[0] == 'agg' and 'Range' in ad[2] and D.has_const(ad[3][0], 0) and D.has_field(ad[3][1], 'largest_acked_packet'):
-            okr = True
-    ctx.check(okr, 'f', 'loss_scan_range_below_largest_acked', dl, dl.where(), 'range(0..largest_acked_packet)', 'loss scan no longer restricted to packets below the largest acked')
+        shapes.append(D.render(ad)[:200])
+        if ad[0] == 'agg' and ad[1] == 'adt' and ad[2] == 'ops::Range::Range' and len(ad[3]) == 2:
+            good = ad[3][0][0] == 'const' and ad[3][0][1] == 'int' and str(ad[3][0][2]) == '0' and _is_largest_acked(ad[3][1])
+        elif ad[0] == 'agg' and ad[1] == 'adt' and ad[2] == 'ops::RangeTo::RangeTo' and len(ad[3]) == 1:
+            good = _is_largest_acked(ad[3][0])
+        else:
+            good = False
+        okr = okr and good
+    ctx.check(okr, 'f', 'loss_scan_range_below_largest_acked', dl, dl.where(), 'range(0..largest_acked_packet)',
+              'loss scan no longer restricted to packets below the largest acked: range argument(s) %s' % shapes)
     # on_ack_received sanity
     oa = ctx.pfn('Connection::on_ack_received')
     g = [br for br in branches(F, oa) if relation_on(br.desc, True) and desc_has(br.desc, fields=['largest', 'next_packet_number'])]
@@ -429,11 +663,83 @@ def rule_f(ctx):
               'ACK of an unsent packet number is no longer rejected before packets are taken')
     ca = oa.calls_to('PacketNumberFilter::check_ack')
     ins = oa.calls_to('ArrayRangeSet::insert_one')
-    okc = bool(ca) and bool(ins) and all(any(oa.dominates(x.bb, c.bb) for x in ca) for c in ins)
-    # and the taken packet numbers derive from the set filled there
     tk = oa.calls_to('PacketSpace::take')
+    okc = bool(ca) and bool(ins) and all(any(oa.dominates(x.bb, c.bb) for x in ca) for c in ins)
+    # the Result of every check_ack call is examined: a branch on its discriminant (`?`, match / if let, is_err / is_ok) whose
+    # Ok edge is the only way to the recording of acked packet numbers and whose Err edge reaches neither that nor take
+    work = [c.bb for c in ins] + [c.bb for c in tk]
+    obr = branches(F, oa)
+    for c in ca:
+        guarded = False
+        for br in obr:
+            edges = _result_edges(br, c)
+            if edges is None:
+                continue
+            ok_t, err_ts = edges
+            err_reach = set()
+            for t in err_ts:
+                err_reach |= oa.reachable_from(t)
+            if all(edge_dominates(oa, br.bb, ok_t, x.bb) for x in ins) and not any(w in err_reach for w in work):
+                guarded = True
+        okc = okc and guarded
+    # and the taken packet numbers derive from the set filled there
     okc = okc and bool(tk) and all(D.has_call(arg_desc(F, c, 1), 'ArrayRangeSet::elts') for c in tk)
-    ctx.check(okc, 'f', 'check_ack_precedes_take', oa, oa.where(), 'check_ack (skipped pn) dominates take', 'skipped-packet-number check no longer precedes processing of acked packets')
+    ctx.check(okc, 'f', 'check_ack_precedes_take', oa, oa.where(), 'check_ack (skipped pn) dominates take; its Err edge leaves without processing', 'skipped-packet-number check no longer precedes processing of acked packets, or its Err result does not stop the processing')
+
+
+def _strip_unwrap(d):
+    """Option payload access erased: x.unwrap() / x.expect(..) / (x as Some).0"""
+    while True:
+        if d[0] == 'call' and d[1] in ('Option::unwrap', 'Option::expect', 'Option::unwrap_unchecked') and d[3]:
+            d = d[3][0]
+        elif d[0] == 'field' and d[2] == '0' and d[1][0] == 'variant' and d[1][2] == 'Some':
+            d = d[1][1]
+        else:
+            return d
+
+
+def _is_largest_acked(d):
+    return all(_is_field(_strip_unwrap(a), 'largest_acked_packet') for a in flat(d))
+
+
+def _from_scan(d):
+    """a place of the item yielded by the SentPackets::range scan (no arithmetic on it)"""
+    while d[0] in ('field', 'variant', 'index'):
+        d = d[1]
+    return d[0] == 'call' and D.has_call(d, 'SentPackets::range')
+
+
+def _is_pn_plus_threshold(d):
+    if not (d[0] == 'bin' and d[1] == 'Add'):
+        return False
+    a, b = d[2], d[3]
+    return (_is_field(a, 'packet_threshold') and _from_scan(b)) or (_is_field(b, 'packet_threshold') and _from_scan(a))
+
+
+def _is_max_call(d):
+    return d[0] == 'call' and (d[1] in MAX_CALLS or D._trait_form(d[1]) in MAX_CALLS)
+
+
+def _is_elapsed_since_sent(d):
+    return d[0] == 'call' and d[1] in ('Instant::saturating_duration_since', 'Instant::duration_since') and len(d[3]) == 2 \
+        and d[3][0][0] == 'param' and d[3][0][2] == 'now' and _is_field(d[3][1], 'time_sent')
+
+
+def _result_edges(br, call):
+    """br tests the Result produced at `call`: returns (ok_target, [error targets]) or None"""
+    d = br.desc
+    if d[0] == 'discr':
+        x = d[1]
+        if x[0] == 'call' and x[1] in ('Result::map_err', 'Result::or_else') and x[3]:
+            x = x[3][0]
+        if is_site(x, call) and x[0] != 'phi':
+            return br.target(0), br.other_targets(0)   # Ok / ControlFlow::Continue = 0
+        return None
+    inner, neg = peel_not(d)
+    if inner[0] == 'call' and inner[1] in ('Result::is_err', 'Result::is_ok') and inner[3] and inner[3][0][0] != 'phi' and is_site(inner[3][0], call):
+        ok_val = (inner[1] == 'Result::is_ok') != neg
+        return br.target(1 if ok_val else 0), [br.target(0 if ok_val else 1)]
+    return None
 
 
 def _recv_is_local(body, call, name):
